@@ -358,9 +358,7 @@ func c19GenPod(h *vHarness, r *vRand, id, node int, inv *c19Inventory, remaining
 				}
 				it.amts = append(it.amts, amt)
 			}
-			itemIdx := len(p.items)
 			if ty == 1 {
-				_ = itemIdx
 				if r.Chance(1, 2) || (seenVFMinor[[2]int{ty, m}] && r.Chance(2, 3)) {
 					// bus ids from a pool of 4 per (node, minor): VFs are shared over time between pods
 					it.ext = &apiext.DeviceAllocationExtension{}
